@@ -21,6 +21,7 @@ REPO = os.environ.get("VERIF_REPO", "/repo")
 PKG = "octoprint_excluderegion"
 
 EXIT_OK, EXIT_VIOLATION, EXIT_INCONCLUSIVE = 0, 1, 2
+DEFAULT_BUDGET_S = {"quick": 600, "thorough": 3600}   # per scenario; exhausting it is INCONCLUSIVE
 
 
 # -------------------------------------------------------------------------------------------------
@@ -378,12 +379,13 @@ def run_property(hm, tier, seed):
             w = SymWorld(ctx, _excl)
             _sc.fn(w, **_sc.params)
         core.NRA_MODE = sc.nra_mode
-        st, vs, complete = core.run_scenario(scen, seed=seed, setup=setup, budget_s=sc.budget_s)
+        st, vs, complete = core.run_scenario(scen, seed=seed, setup=setup,
+                                             budget_s=sc.budget_s or DEFAULT_BUDGET_S[tier])
         total.merge(st)
         info = {"scenario": sc.name, "params": sc.params, "bounds": sc.bounds, "complete": complete,
                 "wall_s": round(time.time() - ts, 2), "excluded_known": list(excl)}
         info.update(st.as_dict())
-        if not complete:
+        if not complete and not vs:
             inconclusive.append("%s: exploration budget exhausted" % sc.name)
         if st.obl_unknown:
             inconclusive.append("%s: %d obligations unknown" % (sc.name, st.obl_unknown))
